@@ -70,7 +70,7 @@ impl<'a> IrEmitter<'a> {
                 quote! { fn(#(#ps),*) -> #r }
             }
             IrType::Generic(name) => {
-                let n = format_ident!("{}", name);
+                let n = format_ident!("{}", Self::escape_keyword(name));
                 quote! { #n }
             }
             IrType::Ref(inner) => {
@@ -138,11 +138,11 @@ impl<'a> IrEmitter<'a> {
                 quote! { (#(#ps),*) }
             }
             Pattern::Struct { name, fields } => {
-                let n = format_ident!("{}", name);
+                let n = format_ident!("{}", Self::escape_keyword(name));
                 let fs: Vec<_> = fields
                     .iter()
                     .map(|(fname, fpat)| {
-                        let fn_ident = format_ident!("{}", fname);
+                        let fn_ident = format_ident!("{}", Self::escape_keyword(fname));
                         let fp = self.emit_pattern(fpat);
                         quote! { #fn_ident: #fp }
                     })
@@ -158,10 +158,13 @@ impl<'a> IrEmitter<'a> {
                 let v: TokenStream = if variant.contains("::") {
                     // Parse as a path
                     let segments: Vec<_> = variant.split("::").collect();
-                    let idents: Vec<_> = segments.iter().map(|s| format_ident!("{}", s)).collect();
+                    let idents: Vec<_> = segments
+                        .iter()
+                        .map(|s| format_ident!("{}", Self::escape_keyword(s)))
+                        .collect();
                     quote! { #(#idents)::* }
                 } else {
-                    let v_ident = format_ident!("{}", variant);
+                    let v_ident = format_ident!("{}", Self::escape_keyword(variant));
                     quote! { #v_ident }
                 };
                 if fields.is_empty() {
